@@ -92,7 +92,9 @@ class Spec:
                 w = 0
             self.w[c] = w
         self.p = {c: self.prev.get(c, 0) for c in self.v}
-        self.base = {c: max(self.w[c] - self.p[c], 0) for c in self.v}
+        # whole quotas held at the cap, less what previous gains already cover
+        self.wcap = {c: min(self.w[c], self.cap[c]) if c in self.cap else self.w[c] for c in self.v}
+        self.base = {c: max(self.wcap[c] - self.p[c], 0) for c in self.v}
         self.sum_prev = sum(self.prev.values())
         self.T = sum(self.base.values()) + self.sum_prev
         # a cap binds on the whole quotas
@@ -204,6 +206,16 @@ def _cap_clauses(sp, res):
     return out
 
 
+def _cap_checks(sp, res):
+    """the cap sentence of the property, on every returned dict: never above the cap and never negative; and, unless
+    seats were withdrawn by 'subtract', exactly on the cap when the whole quotas reach it and never below the whole
+    quotas otherwise"""
+    cl = _cap_clauses(sp, res)
+    if sp.T > sp.n and sp.policy == 'subtract':
+        cl = [c for c in cl if c[0] in ('negative_award', 'cap_exceeded')]
+    return cl
+
+
 def oracle(case, obs):
     op = case['op']
     if op == 'quota':
@@ -216,47 +228,7 @@ def oracle(case, obs):
         return []
     is_err = isinstance(obs, dict)
     out = []
-    if sp.explicit_binds:
-        # a cap binds on the whole quotas: the property fixes caps, floors and the total, not the redistribution
-        INFTY = 10 ** 40
-        cb = {c: max(min(sp.w[c], sp.cap.get(c, INFTY)) - sp.p[c], 0) for c in sp.v}     # whole quotas held at the cap
-        Tc = sum(cb.values()) + sp.sum_prev
-        if Tc > sp.n:
-            # even the capped whole quotas exceed the house: the over-award policy applies to them
-            if sp.policy == 'error':
-                if is_err and obs.get('err') != 'VotingSystemError':
-                    out.append(('raises:' + str(obs.get('err')), 'VotingSystemError expected'))
-                elif not is_err:
-                    out.append(('policy_error', f'VotingSystemError expected, got {obs}'))
-                return out
-            if is_err:
-                if not (sp.policy == 'subtract' and Tc - sp.n > sum(cb.values())):
-                    out.append(('raises:' + str(obs.get('err')), 'no error is specified here'))
-                return out
-            res = _obs_dict(obs)
-            if sp.policy == 'ignore':
-                if _nz(res) != _nz(cb):
-                    out.append(('policy_ignore', f'expected the capped whole quotas {_nz(cb)}, got {_nz(res)}'))
-                return out
-            out += [cl for cl in _cap_clauses(sp, res) if cl[0] in ('negative_award', 'cap_exceeded')]
-            if sum(res.values()) + sp.sum_prev != sp.n:
-                out.append(('subtract_total', f'total {sum(res.values()) + sp.sum_prev} with previous gains, {sp.n} seats'))
-            return out
-        if is_err:
-            out.append(('raises:' + str(obs.get('err')), 'no error is specified for caps'))
-            return out
-        res = _obs_dict(obs)
-        out += _cap_clauses(sp, res)
-        held = {c: sp.p[c] if sp.p[c] > sp.cap.get(c, INFTY) else min(max(sp.w[c], sp.p[c]), sp.cap.get(c, INFTY))
-                for c in sp.v}
-        total_now = sum(res.values()) + sp.sum_prev
-        if op == 'lr':
-            room = sum(1 for c in sp.v if c not in sp.cap or held[c] < sp.cap[c])
-            r = sp.n - (sum(held.values()) + sp.sum_prev - sum(sp.p.values()))
-            if 0 <= r <= room and total_now != sp.n:
-                out.append(('cap_total', f'total {total_now} with previous gains, {sp.n} seats'))
-        return out
-    # no cap binds on the whole quotas: the result is fully determined
+    # the result is fully determined: whole quotas held at the caps, the policy, then the remainder stage
     ws = sp.whole_stage()
     if ws is None:            # more previous gains than seats: nothing can be withdrawn; not specified
         return out
@@ -276,7 +248,7 @@ def oracle(case, obs):
                 out.append(('policy_' + sp.policy, f'expected {want}, got {res}'))
             else:
                 out.append(('whole_quotas', f'expected {want}, got {res}'))
-        out += [cl for cl in _cap_clauses(sp, res) if cl[0] in ('negative_award',)]
+        out += _cap_checks(sp, res)
         return out
     # lr
     want, info = sp.remainder_stage(ws[1])
@@ -311,6 +283,7 @@ def oracle(case, obs):
                 else:
                     cl = ('remainder_order', f'expected {want}, got {res}')
             out.append(cl)
+    out += [cl for cl in _cap_checks(sp, res) if cl[0] not in [o[0] for o in out]]
     return out
 
 
@@ -618,8 +591,7 @@ def _tag(c):
         tags.append('cap_binds')
         if any(sp.p[c_] for c_ in sp.explicit_binds):
             tags.append('cap_with_prev')
-        return c
-    if cls == 'whole_quotas_exceed_house':
+    if sp.house_binds:
         tags.append('whole_exceeds_house')
     if sp.T > sp.n:
         tags.append('policy_' + sp.policy)
@@ -630,8 +602,9 @@ def _tag(c):
             s = sp.subtract()
             if s and any(isinstance(k, tuple) for k in s):
                 tags.append('subtract_tie')
-    elif cls == 'plain':
-        tags.append(c['op'] + '_plain')
+    else:
+        if cls == 'plain':
+            tags.append(c['op'] + '_plain')
         if c['op'] == 'lr':
             ws = sp.whole_stage()
             want, info = sp.remainder_stage(ws[1])
